@@ -304,6 +304,12 @@ package types
 //@ (define-fun limBytes ((id Int) (n Int)) (Slice Int) (marshal.wrkchain.WrkChainStorageLimit (mk.wrkchain.WrkChainStorageLimit id n)))
 //@ (define-fun isBlockKey ((k wrkchain.Key)) Bool ((_ is kBlock) k))
 //@ (define-fun blockKeyId ((k wrkchain.Key)) Int (kBlock.id k))
+//@ (define-fun blockKeyH ((k wrkchain.Key)) Int (kBlock.h k))
+//@ ;;@ need-type github.com/unification-com/mainchain/x/wrkchain/types.WrkChainBlockGenesisExport
+//@ ; the genesis form of a record: the same seven fields under short names
+//@ (define-fun blkExp ((b wrkchain.WrkChainBlock)) wrkchain.WrkChainBlockGenesisExport
+//@   (mk.wrkchain.WrkChainBlockGenesisExport (wrkchain.WrkChainBlock.Height b) (wrkchain.WrkChainBlock.Blockhash b) (wrkchain.WrkChainBlock.Parenthash b) (wrkchain.WrkChainBlock.Hash1 b) (wrkchain.WrkChainBlock.Hash2 b) (wrkchain.WrkChainBlock.Hash3 b) (wrkchain.WrkChainBlock.SubTime b)))
+//@ (define-fun blockKeyId ((k wrkchain.Key)) Int (kBlock.id k))
 //@ (define-fun isWrkChainKey ((k wrkchain.Key)) Bool ((_ is kWrkChain) k))
 //@ (define-fun isLimitKey ((k wrkchain.Key)) Bool ((_ is kLimit) k))
 //@ end
